@@ -24,7 +24,9 @@ DE_ALL = ["json_client_str", "json_client_slice", "json_client_reader", "json_se
           # the convenience functions json::client_from_str::<T> ... (the entries above are the Deserializer structs)
           "json_client_fn_str", "json_client_fn_slice", "json_client_fn_reader", "json_server_fn_str", "json_server_fn_slice",
           "json_server_fn_reader", "smile_client_fn_slice", "smile_client_fn_reader", "smile_server_fn_slice",
-          "smile_server_fn_reader", "smile_client_fn_mut_slice", "smile_server_fn_mut_slice"]
+          "smile_server_fn_reader", "smile_client_fn_mut_slice", "smile_server_fn_mut_slice",
+          # the request-body deserializers of conjure-http's JsonEncoding / SmileEncoding (type-erased server deserializers)
+          "json_server_http", "smile_server_http"]
 
 
 def f64_of_bits(bits):
